@@ -241,7 +241,7 @@ def run(ctx):
 
 HISTORY_CLAUSES = ("SM:editor-changed-items-other-than-as-documented", "SM:result-holds-wrong-item-objects",
                    "SM:reader-result-not-a-function-of-the-current-items", "SM:raised", "SM:no-new-list",
-                   "SM:sample-not-an-ordered-sublist")
+                   "SM:sample-not-an-ordered-sublist", "SM:result-is-an-existing-list-object")
 
 
 def histories(ctx, n):
